@@ -526,6 +526,76 @@ pub fn gen_key(
     params.generate(&mut r)
 }
 
+/// A v4 key whose ECDH encryption subkey announces the given KDF hash and key-wrap cipher instead of the curve's defaults
+/// (legal for v4 keys; other implementations generate e.g. P-384 keys with SHA-384 + AES-256).
+pub fn gen_key_ecdh_kdf(seed: u64, enc: &EncAlg, kdf_hash: HashAlgorithm, kek: pgp::crypto::sym::SymmetricKeyAlgorithm, uid: &str) -> pgp::errors::Result<SignedSecretKey> {
+    use pgp::types::{EcdhPublicParams, PublicParams};
+    let mut key = gen_key(seed, false, &Alg::Ed25519Legacy, None, uid)?;
+    let mut r = rng(seed ^ 0xEC0D);
+    let (mut public_params, secret_params) = enc.key_type().generate(&mut r)?;
+    match &mut public_params {
+        PublicParams::ECDH(EcdhPublicParams::P256 { hash, alg_sym, .. })
+        | PublicParams::ECDH(EcdhPublicParams::P384 { hash, alg_sym, .. })
+        | PublicParams::ECDH(EcdhPublicParams::P521 { hash, alg_sym, .. })
+        | PublicParams::ECDH(EcdhPublicParams::Curve25519Legacy { hash, alg_sym, .. }) => {
+            *hash = kdf_hash;
+            *alg_sym = kek;
+        }
+        _ => return Err(pgp::errors::Error::from("not an ECDH key type".to_string())),
+    }
+    let inner = pgp::packet::PubKeyInner::new(KeyVersion::V4, enc.key_type().to_alg(), pgp::types::Timestamp::now(), None, public_params)?;
+    let pub_sub = pgp::packet::PublicSubkey::from_inner(inner)?;
+    let mut flags = pgp::packet::KeyFlags::default();
+    flags.set_encrypt_comms(true);
+    flags.set_encrypt_storage(true);
+    let binding = pub_sub.sign(&mut r, &key.primary_key, key.primary_key.public_key(), &pgp::types::Password::empty(), flags, None)?;
+    let sec_sub = pgp::packet::SecretSubkey::new(pub_sub, secret_params)?;
+    key.secret_subkeys.push(pgp::composed::SignedSecretSubKey::new(sec_sub, vec![binding]));
+    key.verify_bindings()?;
+    Ok(key)
+}
+
+/// Value-dependent signature encodings: an RSA signature or an (EC)DSA / EdDSA-legacy r or s starts with a zero octet about once
+/// in 256 (128) signatures and is then stored as a shorter MPI; every signature a key makes must still verify, also re-parsed.
+pub fn sign_value_sweep(sink: &Sink, check: &str, seed: u64, algs: &[(&str, bool, Alg, HashAlgorithm)], trials: u64) -> u64 {
+    use pgp::packet::{SignatureConfig, SignatureType, Subpacket, SubpacketData};
+    use pgp::ser::Serialize;
+    use pgp::types::{KeyDetails, Password};
+    use rayon::prelude::*;
+    let mut total = 0;
+    for (ai, (name, v6, alg, hash)) in algs.iter().enumerate() {
+        let key = match guard(|| gen_key(seed ^ (0x51A0 + ai as u64), *v6, alg, None, name)) {
+            Out::Ok(k) => k,
+            o => { sink.put(rec(check, serde_json::json!({"key": name}), false, "keygen", serde_json::json!({"outcome": o.class(), "detail": o.detail()}))); continue }
+        };
+        let pubk = key.primary_key.public_key().clone();
+        let lens = std::sync::Mutex::new(std::collections::BTreeMap::<usize, u64>::new());
+        let fails: Vec<String> = (0..trials).into_par_iter().filter_map(|t| {
+            let r = guard(|| -> Result<(), String> {
+                let e = |x: pgp::errors::Error| x.to_string();
+                let payload = format!("payload #{t}").into_bytes();
+                let mut cfg = if *v6 { SignatureConfig::v6(rng(seed ^ t), SignatureType::Binary, key.primary_key.algorithm(), *hash).map_err(e)? } else { SignatureConfig::v4(SignatureType::Binary, key.primary_key.algorithm(), *hash) };
+                cfg.hashed_subpackets = vec![Subpacket::regular(SubpacketData::IssuerFingerprint(key.primary_key.fingerprint())).map_err(e)?];
+                let sig = cfg.sign(&key.primary_key, &Password::empty(), &payload[..]).map_err(e)?;
+                let bytes = pgp::packet::Packet::from(sig.clone()).to_bytes().map_err(e)?;
+                *lens.lock().unwrap().entry(bytes.len()).or_insert(0) += 1;
+                sig.verify(&pubk, &payload[..]).map_err(|x| format!("a signature made by the key does not verify ({} octet packet): {x}", bytes.len()))?;
+                let Some(Ok(pgp::packet::Packet::Signature(s2))) = pgp::packet::PacketParser::new(&bytes[..]).next() else { return Err("does not re-parse".into()) };
+                s2.verify(&pubk, &payload[..]).map_err(|x| format!("re-parsed signature does not verify ({} octet packet): {x}", bytes.len()))?;
+                Ok(())
+            });
+            if r.is_ok() { None } else { Some(format!("trial {t}: {}", r.detail())) }
+        }).collect();
+        total += trials;
+        let lens = lens.into_inner().unwrap();
+        let longest = lens.keys().max().copied().unwrap_or(0);
+        let shorter: u64 = lens.iter().filter(|(l, _)| **l < longest).map(|(_, n)| *n).sum();
+        sink.put(rec(check, serde_json::json!({"key": name, "trials": trials, "signatures_with_a_short_value": shorter}), fails.is_empty(), "sign_value_sweep",
+            serde_json::json!({"outcome": if fails.is_empty() { "ok" } else { "err" }, "detail": format!("{} of {trials} signatures rejected; first: {:?}", fails.len(), fails.first())})));
+    }
+    total
+}
+
 pub fn hash_by_name(s: &str) -> Option<HashAlgorithm> {
     Some(match s {
         "sha1" => HashAlgorithm::Sha1,
